@@ -56,7 +56,7 @@ func isSyncType(t types.Type) bool {
 	}
 	str := t.String()
 	return strings.HasPrefix(str, "sync.") || strings.HasPrefix(str, "verif/sim/simsync.") || strings.HasPrefix(str, "*sync.") ||
-		strings.HasPrefix(str, "sync/atomic.")
+		strings.HasPrefix(str, "sync/atomic.") || strings.HasPrefix(str, "verif/sim/simatomic.")
 }
 
 func (s *raceImpl) curFunc() string {
